@@ -163,28 +163,68 @@ class FaultyFile(io.RawIOBase):
 
 
 class SimFS(object):
-    """gzip shim installed as phyclone.process_trace.process_trace.gzip; trace images live in memory."""
+    """The simulated disk under the trace writer.  Two seams are taken over inside phyclone.process_trace.process_trace:
+    the module's `gzip` (GzipFile / open by path) and the module-level name `open` (for writers that open the file
+    themselves and hand a file object to gzip).  Managed paths live in memory as images; every other path is the real disk."""
 
     def __init__(self):
         self.images = {}
+        self.managed = set()
         self.write_fault = None
         self.fired = {}
 
-    def GzipFile(self, filename=None, mode="rb", **kw):
+    def manage(self, path):
+        self.managed.add(str(path))
+
+    def _raw_write(self, path):
+        return FaultyFile(self, path, self.write_fault)
+
+    def GzipFile(self, filename=None, mode=None, compresslevel=9, fileobj=None, mtime=None):
+        if fileobj is not None:
+            return real_gzip.GzipFile(filename=filename if isinstance(filename, str) else "", mode=mode, compresslevel=compresslevel,
+                                      fileobj=fileobj, mtime=0 if (mode and "w" in mode) else mtime)
         path = str(filename)
-        if "w" in mode:
-            raw = FaultyFile(self, path, self.write_fault)
-            return real_gzip.GzipFile(filename="", mode="wb", fileobj=raw, mtime=0)
-        if path not in self.images:
+        mode = mode or "rb"
+        if path in self.managed and ("w" in mode or "a" in mode or "x" in mode):
+            return real_gzip.GzipFile(filename="", mode="wb", fileobj=self._raw_write(path), mtime=0)
+        if path in self.images:
+            return real_gzip.GzipFile(fileobj=io.BytesIO(self.images[path]), mode="rb")
+        if path in self.managed:
             raise FileNotFoundError(errno.ENOENT, "No such file (simulated disk)", path)
-        return real_gzip.GzipFile(fileobj=io.BytesIO(self.images[path]), mode="rb")
+        return real_gzip.GzipFile(filename, mode, compresslevel, None, mtime)
+
+    def gzip_open(self, filename, mode="rb", *a, **k):
+        path = str(filename)
+        if path in self.managed or path in self.images:
+            if "t" in mode:
+                return io.TextIOWrapper(self.GzipFile(path, mode.replace("t", "")))
+            return self.GzipFile(path, mode)
+        return real_gzip.open(filename, mode, *a, **k)
+
+    def open(self, file, mode="r", *a, **k):
+        path = str(file)
+        if path in self.managed and "b" in mode:
+            if "w" in mode or "a" in mode or "x" in mode:
+                return self._raw_write(path)
+            if path in self.images:
+                return io.BytesIO(self.images[path])
+            raise FileNotFoundError(errno.ENOENT, "No such file (simulated disk)", path)
+        import builtins
+
+        return builtins.open(file, mode, *a, **k)
 
     def module(self):
         m = types.ModuleType("gzip_shim")
         m.GzipFile = self.GzipFile
         m.BadGzipFile = real_gzip.BadGzipFile
-        m.open = real_gzip.open
+        m.open = self.gzip_open
+        m.compress = real_gzip.compress
+        m.decompress = real_gzip.decompress
         return m
+
+    def install(self, P, ppt):
+        P.set(ppt, "gzip", self.module())
+        P.set(ppt, "open", self.open)
 
 
 # ------------------------------------------------------------------------------------------------ inputs
@@ -308,13 +348,21 @@ class PatchSet(object):
     def __init__(self):
         self.saved = []
 
+    _ABSENT = object()
+
     def set(self, obj, name, val):
-        self.saved.append((obj, name, getattr(obj, name)))
+        self.saved.append((obj, name, obj.__dict__.get(name, self._ABSENT) if hasattr(obj, "__dict__") else getattr(obj, name)))
         setattr(obj, name, val)
 
     def undo(self):
         for obj, name, val in reversed(self.saved):
-            setattr(obj, name, val)
+            if val is self._ABSENT:
+                try:
+                    delattr(obj, name)
+                except AttributeError:
+                    pass
+            else:
+                setattr(obj, name, val)
         self.saved = []
 
 
@@ -379,7 +427,8 @@ def run_pipeline(spec):
         P.set(prun, "ProcessPoolExecutor", ex)
         P.set(prun, "as_completed", ex.as_completed)
         P.set(prun, "get_context", lambda kind: ("sim-context", kind))
-        P.set(ppt, "gzip", fs.module())
+        fs.manage(out_file)
+        fs.install(P, ppt)
 
         orig_burn, orig_main, orig_clear = prun._run_burnin, prun._run_main_sampler, prun.clear_proposal_dist_caches
         orig_append, orig_upd = prun.append_to_trace, prun.update_concentration_value
@@ -475,12 +524,18 @@ def run_pipeline(spec):
         except Exception as e:
             hist["exception"] = {"type": type(e).__name__, "where": innermost_phyclone_frame(e), "msg": str(e)[:300]}
         hist["image"] = fs.images.get(out_file)
+        if hist["image"] is None and os.path.exists(out_file):
+            # the writer bypassed both seams and wrote to the real disk: no write fault could be injected, the bytes are still the trace
+            with open(out_file, "rb") as fh:
+                hist["image"] = fh.read()
+            hist["stats"]["writer_bypassed_simulated_disk"] = 1
         hist["fs_fired"] = dict(fs.fired)
         hist["out_file"] = out_file
         hist["clock_reads"] = [c.reads for c in clock_holder.get("clocks", [])]
+        hist["sim_time"] = float(sum(max(0.0, c.T) for c in clock_holder.get("clocks", [])))
         if hist["image"] is not None and hist["exception"] is None:
             try:
-                hist["results"] = pickle.loads(real_gzip.decompress(hist["image"]))
+                hist["results"] = load_results(hist["image"])
             except Exception as e:
                 hist["results_error"] = repr(e)
     finally:
@@ -496,24 +551,24 @@ def run_summaries(image, what, scratch=None):
     import phyclone.process_trace.process_trace as ppt
 
     d = tempfile.mkdtemp(prefix="vsum_")
-    fs = SimFS()
-    fs.images["TRACE"] = image
     P = PatchSet()
     out = {"ok": False, "exception": None}
     try:
-        P.set(ppt, "gzip", fs.module())
+        trace_path = os.path.join(d, "TRACE.pkl.gz")
+        with open(trace_path, "wb") as fh:  # readers see a real file holding exactly the image (possibly a truncated one)
+            fh.write(image)
         table = os.path.join(d, "TABLE.tsv")
         tree = os.path.join(d, "TREE.nwk")
         try:
             with contextlib.redirect_stdout(io.StringIO()):
                 if what[0] == "map":
-                    ppt.write_map_results("TRACE", table, tree, map_type=what[1])
+                    ppt.write_map_results(trace_path, table, tree, map_type=what[1])
                 elif what[0] == "consensus":
-                    ppt.write_consensus_results("TRACE", table, tree, consensus_threshold=what[2], weight_type=what[1])
+                    ppt.write_consensus_results(trace_path, table, tree, consensus_threshold=what[2], weight_type=what[1])
                 else:
                     arch = os.path.join(d, "ARCH.tar.gz") if what[2] else None
                     top = what[1] if what[1] is not None else float("inf")
-                    ppt.write_topology_report("TRACE", table, topologies_archive=arch, top_trees=top)
+                    ppt.write_topology_report(trace_path, table, topologies_archive=arch, top_trees=top)
             out["ok"] = True
         except Exception as e:
             out["exception"] = {"type": type(e).__name__, "where": innermost_phyclone_frame(e), "msg": str(e)[:300]}
@@ -534,6 +589,21 @@ def run_summaries(image, what, scratch=None):
     finally:
         P.undo()
         shutil.rmtree(d, ignore_errors=True)
+    return out
+
+
+def load_results(image):
+    """Decode a trace image into {chain: result} without the repository's readers: every gzip member / pickle record
+    in the stream is read and merged (the shipped format is one member holding one record)."""
+    data = real_gzip.decompress(image)
+    bio = io.BytesIO(data)
+    out = None
+    while bio.tell() < len(data):
+        rec = pickle.load(bio)
+        if out is None:
+            out = rec
+        elif isinstance(out, dict) and isinstance(rec, dict):
+            out.update(rec)
     return out
 
 
